@@ -616,7 +616,9 @@ def run_case(case, seed):
             run1 = _fit_boot(model, nb, bs, before)
             if dask_backed:  # clause (e) becomes: the dask-backed model and the same data in memory give the same members for the same seed
                 Bm = build(case, seed, backend="numpy")
-                run2 = _fit_boot(new_model(True).fit(Bm["obj"], dim=Bm["dim"], weights=Bm["weights"]), nb, bs)
+                model_mem = new_model(True).fit(Bm["obj"], dim=Bm["dim"], weights=Bm["weights"])
+                mem_scores = model_mem.scores()
+                run2 = _fit_boot(model_mem, nb, bs)
             else:
                 run2 = _fit_boot(model, nb, bs)  # always a fresh object: clause (e) relates the judged fit to it
         except (CaseTimeout, MemoryError):
@@ -693,6 +695,14 @@ def run_case(case, seed):
         F1, F2 = flat(run1), flat(run2)
         Vm = comps_matrix(norm_c(m_comps, False), B, ["mode"]).T  # (p, k)
         Sm = scores_matrix(m_scores.sel(mode=modes), B, ["mode"]).T  # (n, k)
+        # members are oriented against THEIR model: where the in-memory model's own mode has the opposite orientation of the dask-backed
+        # model's (a tie in the model's sign convention, not the bootstrapper's business) the members must differ by exactly that factor
+        rel = np.ones(k, dtype=Sm.dtype)
+        if dask_backed:
+            Sm_mem = scores_matrix(mem_scores.sel(mode=modes), B, ["mode"]).T
+            for i in range(k):
+                z = np.vdot(Sm_mem[:, i], Sm[:, i])
+                rel[i] = z / abs(z) if abs(z) > 0 else 1.0
     except StructureError as e:
         bad("structure", str(e), kind=e.kind)
         return dict(violations=V, outcome="violation", nontrivial=False)
@@ -785,7 +795,7 @@ def run_case(case, seed):
                     continue  # cluster shared with modes that were not retained: the retained vectors are not determined
                 if len(cl) == 1:
                     i = cl[0]
-                    ph = 1.0
+                    ph = rel[i]
                     if _undetermined(Sb[:, i], Sm[:, i], s0):  # orientation itself undetermined: compare up to a unit factor
                         z = np.vdot(Vb2[:, i], Vb[:, i])
                         ph = z / abs(z) if abs(z) > 0 else 1.0
